@@ -17,15 +17,18 @@ package main
 // Built without -race (.bin/corr) the engine still runs everything except the detector and says so.
 
 import (
-	"context"
+	"bytes"
 	"encoding/json"
 	"fmt"
 	"os"
 	"os/exec"
 	"path/filepath"
 	"regexp"
+	"runtime"
 	"sort"
 	"strings"
+	"sync/atomic"
+	"syscall"
 	"time"
 )
 
@@ -46,9 +49,14 @@ type raceWorkerOut struct {
 	Notes      []string       `json:"notes"`
 }
 
-func (o *raceWorkerOut) count(k string) { o.Dist[k]++ }
+// raceProgress: bumped whenever a workload records something; the worker's heartbeat goroutine writes
+// it to VERIF_RACE_HB, the driver kills a worker whose heartbeat stopped CHANGING (see runWorker).
+var raceProgress atomic.Int64
+
+func (o *raceWorkerOut) count(k string) { o.Dist[k]++; raceProgress.Add(1) }
 func (o *raceWorkerOut) eval(key string, nontrivial bool) {
 	o.Evals = append(o.Evals, evalRec{key, nontrivial})
+	raceProgress.Add(1)
 }
 func (o *raceWorkerOut) violate(v Violation) {
 	if len(o.Violations) < 40 {
@@ -175,7 +183,7 @@ func raceDriver(c *Ctx) error {
 	if err != nil {
 		return err
 	}
-	work, err := os.MkdirTemp(fsWorkDir(c), "race-")
+	work, err := os.MkdirTemp(fsWorkDir(c), scratchPrefix("race"))
 	if err != nil {
 		return err
 	}
@@ -194,16 +202,16 @@ func raceDriver(c *Ctx) error {
 		}
 		outp := filepath.Join(work, fmt.Sprintf("w%d.json", gi))
 		logp := filepath.Join(work, fmt.Sprintf("race%d", gi))
-		// a workload that wedges (deadlock inside the library) must not hang the check
-		limit := time.Duration(c.Pick(75, 900)) * time.Second
-		wctx, wcancel := context.WithTimeout(context.Background(), limit)
-		cmd := exec.CommandContext(wctx, exe, "race", "-tier", c.Tier, "-seed", fmt.Sprint(c.Seed+int64(gi)*1000003), "-oracle", c.Oracle, "-out", filepath.Join(work, "ignored.json"))
-		cmd.Env = append(os.Environ(), "VERIF_RACE_WORKER="+g.name, "VERIF_RACE_OUT="+outp,
+		// a workload that wedges (deadlock inside the library) must not hang the check: the worker is
+		// killed when it stops making PROGRESS (its heartbeat value does not change for `limit`), not
+		// when a total running time is exceeded -- a busy machine makes a workload slow, not wedged
+		limit := time.Duration(c.Pick(75, 300)) * time.Second
+		hbp := filepath.Join(work, fmt.Sprintf("hb%d", gi))
+		cmd := exec.Command(exe, "race", "-tier", c.Tier, "-seed", fmt.Sprint(c.Seed+int64(gi)*1000003), "-oracle", c.Oracle, "-out", filepath.Join(work, "ignored.json"))
+		cmd.Env = append(os.Environ(), "VERIF_RACE_WORKER="+g.name, "VERIF_RACE_OUT="+outp, "VERIF_RACE_HB="+hbp,
 			"GORACE=log_path="+logp+" halt_on_error=0 exitcode=0 history_size=3", fmt.Sprintf("GOMAXPROCS=%d", g.procs))
 		t0 := time.Now()
-		stderr, runErr := cmd.CombinedOutput()
-		timedOut := wctx.Err() != nil
-		wcancel()
+		stderr, runErr, timedOut := runWorker(cmd, hbp, limit, time.Duration(c.Pick(900, 7200))*time.Second)
 		c.Count("group:" + strings.SplitN(g.name, ":", 2)[0])
 		c.Count(fmt.Sprintf("gomaxprocs:%d", g.procs))
 		label := fmt.Sprintf("%s procs=%d seed=%d", g.name, g.procs, c.Seed+int64(gi)*1000003)
@@ -211,6 +219,38 @@ func raceDriver(c *Ctx) error {
 		var wo raceWorkerOut
 		if b, e := os.ReadFile(outp); e == nil {
 			_ = json.Unmarshal(b, &wo)
+		}
+		readRaceLogs := func() {
+			// race reports of this group
+			logs, _ := filepath.Glob(logp + ".*")
+			for _, lf := range logs {
+				b, _ := os.ReadFile(lf)
+				for _, r := range parseRaceLog(b) {
+					fa, fb := firstLibFrame(r.stackA), firstLibFrame(r.stackB)
+					c.Count("race-reports")
+					if fa == "" && fb == "" {
+						// a race wholly inside the harness: a defect of the check, make it loud
+						key := "C17:race-in-harness:" + top(r.stackA, 1) + "|" + top(r.stackB, 1)
+						if !seenRace[key] {
+							seenRace[key] = true
+							c.Violate(Violation{Property: "C17", Key: key, What: "data race between two harness goroutines (defect of the harness, not of the library)", Ops: replay, Expected: "no report", Observed: r.text})
+						}
+						continue
+					}
+					pair := []string{fa, fb}
+					sort.Strings(pair)
+					key := "C17:race:" + pair[0] + "|" + pair[1]
+					if seenRace[key] {
+						c.Count("race-reports-duplicate-site")
+						continue
+					}
+					seenRace[key] = true
+					c.Violate(Violation{Property: "C17", Key: key,
+						What:     "the race detector found two unsynchronised conflicting accesses inside the library while it was used as the property allows (" + g.name + ")",
+						Ops:      append(append([]string{}, replay...), "# "+r.kindA+": "+top(r.stackA, 4), "# "+r.kindB+": "+top(r.stackB, 4)),
+						Expected: "no data race", Observed: r.text})
+				}
+			}
 		}
 		if runErr != nil || wo.Group == "" {
 			tail := string(stderr)
@@ -224,10 +264,11 @@ func raceDriver(c *Ctx) error {
 			if timedOut {
 				wedged++
 				key = "C17:workload-wedged:" + strings.SplitN(g.name, ":", 2)[0]
-				tail = fmt.Sprintf("no result after %v (deadlock or livelock under concurrent use); ", limit) + tail
+				tail = fmt.Sprintf("no progress for %v (deadlock or livelock under concurrent use); ", limit) + tail
 			}
 			c.Violate(Violation{Property: "C17", Key: key, What: "the workload process died (fatal runtime error or panic while the library ran under concurrent use)",
 				Ops: replay, Expected: "workload completes", Observed: fmt.Sprintf("%v: %s", runErr, tail)})
+			readRaceLogs() // what the detector had found before the worker died counts all the same
 			continue
 		}
 		for _, cs := range wo.Cases {
@@ -253,36 +294,7 @@ func raceDriver(c *Ctx) error {
 			c.Sample(s)
 		}
 		c.Res.Notes = append(c.Res.Notes, wo.Notes...)
-		// race reports of this group
-		logs, _ := filepath.Glob(logp + ".*")
-		for _, lf := range logs {
-			b, _ := os.ReadFile(lf)
-			for _, r := range parseRaceLog(b) {
-				fa, fb := firstLibFrame(r.stackA), firstLibFrame(r.stackB)
-				c.Count("race-reports")
-				if fa == "" && fb == "" {
-					// a race wholly inside the harness: a defect of the check, make it loud
-					key := "C17:race-in-harness:" + top(r.stackA, 1) + "|" + top(r.stackB, 1)
-					if !seenRace[key] {
-						seenRace[key] = true
-						c.Violate(Violation{Property: "C17", Key: key, What: "data race between two harness goroutines (defect of the harness, not of the library)", Ops: replay, Expected: "no report", Observed: r.text})
-					}
-					continue
-				}
-				pair := []string{fa, fb}
-				sort.Strings(pair)
-				key := "C17:race:" + pair[0] + "|" + pair[1]
-				if seenRace[key] {
-					c.Count("race-reports-duplicate-site")
-					continue
-				}
-				seenRace[key] = true
-				c.Violate(Violation{Property: "C17", Key: key,
-					What:     "the race detector found two unsynchronised conflicting accesses inside the library while it was used as the property allows (" + g.name + ")",
-					Ops:      append(append([]string{}, replay...), "# "+r.kindA+": "+top(r.stackA, 4), "# "+r.kindB+": "+top(r.stackB, 4)),
-					Expected: "no data race", Observed: r.text})
-			}
-		}
+		readRaceLogs()
 		c.Res.Distribution["group-wall-ms-total"] += int(time.Since(t0).Milliseconds())
 		c.Res.Distribution["group-wall-ms:"+strings.SplitN(g.name, ":", 2)[0]] += int(time.Since(t0).Milliseconds())
 	}
@@ -301,6 +313,18 @@ func raceDriver(c *Ctx) error {
 
 func raceWorker(c *Ctx, group string) error {
 	out := &raceWorkerOut{Group: group, Dist: map[string]int{}}
+	if hb := os.Getenv("VERIF_RACE_HB"); hb != "" {
+		go func() { // heartbeat: the progress counter, written when it changed
+			last := int64(-1)
+			for {
+				if v := raceProgress.Load(); v != last {
+					last = v
+					_ = os.WriteFile(hb, []byte(fmt.Sprint(v)), 0o644)
+				}
+				time.Sleep(200 * time.Millisecond)
+			}
+		}()
+	}
 	func() {
 		defer func() {
 			if r := recover(); r != nil {
@@ -336,6 +360,67 @@ func raceWorker(c *Ctx, group string) error {
 			out.Notes = append(out.Notes, "unknown group "+group)
 		}
 	}()
+	// the torn-read search reads expirations out of DebugDump's text: when that text is not in the
+	// format the harness knows the search is blind there -- said through planned-vs-run, never a finding
+	if r, u := int(dumpStampsRead.Load()), int(dumpFormatUnknown.Load()); r+u > 0 {
+		out.Dist["planned:dumped-expirations-readable"] += r + u
+		out.Dist["ran:dumped-expirations-readable"] += r
+		if u > 0 {
+			out.Notes = append(out.Notes, fmt.Sprintf("%s: %d expirations in DebugDump output were not in the known timestamp format (dump format changed?): not judged for torn reads", group, u))
+		}
+	}
 	b, _ := json.Marshal(out)
 	return os.WriteFile(os.Getenv("VERIF_RACE_OUT"), b, 0o644)
+}
+
+// runWorker starts a workload process and waits for it. The worker is killed (whole process group)
+// when its heartbeat file stops changing for `quiet`, or after `total` as a last resort. It dies with
+// the driver (Pdeathsig; the spawning goroutine keeps its OS thread until the child is gone, as the
+// signal is tied to the thread that forked).
+func runWorker(cmd *exec.Cmd, hbPath string, quiet, total time.Duration) (output []byte, err error, wedged bool) {
+	var buf bytes.Buffer
+	cmd.Stdout, cmd.Stderr = &buf, &buf
+	cmd.SysProcAttr = &syscall.SysProcAttr{Pdeathsig: syscall.SIGKILL, Setpgid: true}
+	done := make(chan error, 1)
+	started := make(chan error, 1)
+	go func() {
+		runtime.LockOSThread()
+		defer runtime.UnlockOSThread()
+		if e := cmd.Start(); e != nil {
+			started <- e
+			return
+		}
+		started <- nil
+		done <- cmd.Wait()
+	}()
+	if e := <-started; e != nil {
+		return nil, e, false
+	}
+	kill := func() {
+		_ = syscall.Kill(-cmd.Process.Pid, syscall.SIGKILL)
+		_ = cmd.Process.Kill()
+	}
+	t0 := time.Now()
+	lastChange := t0
+	lastHB := ""
+	tick := time.NewTicker(250 * time.Millisecond)
+	defer tick.Stop()
+	for {
+		select {
+		case err = <-done:
+			return buf.Bytes(), err, false
+		case <-tick.C:
+			if b, e := os.ReadFile(hbPath); e == nil && string(b) != lastHB {
+				lastHB, lastChange = string(b), time.Now()
+			}
+			if time.Since(lastChange) > quiet || time.Since(t0) > total {
+				kill()
+				err = <-done
+				if err == nil {
+					err = fmt.Errorf("killed")
+				}
+				return buf.Bytes(), err, true
+			}
+		}
+	}
 }
